@@ -55,6 +55,7 @@ func c19Rules(tier string) []Rule {
 	// pushed to a lighter pool by options the first pod already excluded)
 	rules = append(rules, POST{ID: "C19.POST4", Fn: "(*sched.Scheduler).addToNewNodeClaim", From: `^call \(\*sched\.NodeClaim\)\.Add\(`, Shallow: true,
 		Must: []string{`^mapupdate \$0\.remainingResources\[.*NodePoolName\] = sched\.subtractMax\(\$0\.remainingResources\[.*NodePoolName\], .*InstanceTypeOptions\)`}},
+		core.Custom{ID: "C19.PROV6", Kind: "PROV", Run: subtractMaxRows},
 		NOREACH{ID: "C19.NR1", Fn: "(*sched.Scheduler).addToNewNodeClaim", From: `^mapupdate \$0\.remainingResources\[.*NodePoolName\] = sched\.subtractMax\(`, Sink: `^call \(\*sched\.NodeClaim\)\.Add\(`})
 	return rules
 }
